@@ -675,6 +675,43 @@ mod real {
             drop(cs);
             std::thread::sleep(Duration::from_millis(6500));
             let after = tasks();
+            // second phase: twelve connections that stay open for longer than any plausible
+            // idle period measured so far (6 s), each answered once; then they close, and the
+            // thread count is watched passively (every 250 ms, for at most 40 s) until it is
+            // back at the level it had just before (`after`: the server idle for 6.5 s)
+            let mut held = Vec::new();
+            let mut held_answered = 0;
+            for _ in 0..12 {
+                if let Ok(mut s) = TcpStream::connect(addr) {
+                    let _ = s.write_all(b"GET /held HTTP/1.1\r\nHost: t\r\n\r\n");
+                    held.push(s);
+                }
+            }
+            std::thread::sleep(Duration::from_millis(300));
+            for s in held.iter_mut() {
+                let _ = s.set_read_timeout(Some(Duration::from_millis(300)));
+                let mut b = [0u8; 512];
+                if let Ok(n) = s.read(&mut b) {
+                    if b[..n].starts_with(b"HTTP/1.1 200") {
+                        held_answered += 1;
+                    }
+                }
+            }
+            let during_held = tasks();
+            std::thread::sleep(Duration::from_millis(6000));
+            drop(held);
+            let t0 = Instant::now();
+            let mut back_after_ms: Option<u64> = None;
+            while t0.elapsed() < Duration::from_secs(40) {
+                if tasks() <= after {
+                    back_after_ms = Some(t0.elapsed().as_millis() as u64);
+                    break;
+                }
+                std::thread::sleep(Duration::from_millis(250));
+            }
+            out.insert("held12_answered".into(), json!(held_answered));
+            out.insert("threads_during_held12".into(), json!(during_held));
+            out.insert("threads_back_after_held12_closed_ms".into(), json!(back_after_ms));
             server.unblock();
             let _ = h.join();
             out.insert("burst32_answered".into(), json!(answered));
